@@ -11,6 +11,7 @@ package node
 //@ ghost c03torn bool = false
 
 //@ func releasePodNotFound
+//@   modifies networkv1beta1.IP.PodID, networkv1beta1.IP.PodUID, networkv1beta1.NodeRuntime.ObjectMeta, networkv1beta1.NodeRuntime.Spec, networkv1beta1.NodeRuntime.Status, networkv1beta1.NodeRuntime.TypeMeta
 //@   at call RuntimeFinalStatus: ghost c03torn = (result2 && result0 == "deleted")
 
 //@ # An address is unbound from its pod only if the pod object is gone (not among the node's pods) and, when the record
@@ -109,3 +110,8 @@ package node
 //@   requires n != nil && node != nil && n.tracer != nil
 //@   at call ReconcileNode.addIP: ghost c08added = true
 //@   ensures c08added
+
+//@ for C02 C03
+//@ # ---- frames: the unbinding and trimming steps write nothing but owners and deletion marks ----
+//@ func releaseUnUsedIP
+//@   modifies networkv1beta1.IP.Status, networkv1beta1.NetworkInterface.Status
